@@ -210,10 +210,11 @@ class _PythonFnFactory(object):
     # The lint override is a false positive.
     new_fn = bound_factory(**self._extra_locals)  # pylint:disable=not-callable
 
-    if defaults:
-      new_fn.__defaults__ = defaults
-    if kwdefaults:
-      new_fn.__kwdefaults__ = kwdefaults
+    # Note: assigned unconditionally, because the generated function carries
+    # placeholder defaults (see _erase_arg_defaults) which must not survive when
+    # the original function has none.
+    new_fn.__defaults__ = defaults
+    new_fn.__kwdefaults__ = kwdefaults
 
     return new_fn
 
